@@ -48,6 +48,23 @@ class RegGen:
         self.cats = cfg["cats"]
         self.T = pool_types(cfg)
         self.bad_rate = cfg.get("bad_rate", 1.0)
+        self.pre = None
+
+    def preamble(self):
+        """A scripted, valid population (bases, units, the type-named categories) issued as ordinary
+        recorded registrations, so that the seeded part of the history starts on a database that is
+        in use (re-registrations, copies and overrides then have something to act upon)."""
+        ops = []
+        for t in self.types:
+            (u0, n0, _k0) = tuple(self.T[t][0])
+            ops.append(self._op("reg.AddUnitBase", "AddUnitBase", [t, n0, u0], reg={"kind": "AddUnitBase", "type": t, "unit": u0, "name": n0}))
+            for u, name, k in self.T[t][1:]:
+                k = tuple(k) if isinstance(k, list) else k
+                fb, tb = self.conv(k)
+                ops.append(self._op("reg.AddUnit", "AddUnit", [t, name, u, fb, tb], reg={"kind": "AddUnit", "type": t, "unit": u, "name": name, "k": list(k) if isinstance(k, tuple) else k, "default_category": None, "bad": None}))
+            if t in self.cats:
+                ops.append(self._op("reg.AddCategory", "AddCategory", [t, t], reg={"kind": "AddCategory", "category": t, "kw": {"quantity_type": t}}))
+        return ops
 
     def units_of(self, t):
         return [u for u, _, _ in self.T[t]]
@@ -77,6 +94,14 @@ class RegGen:
         rng = self.rng
         model = sim.user["model"]
         w = self.cfg["weights"]
+        if self.cfg.get("preamble") and self.cfg["world"] == "W-SYN":
+            if self.pre is None:
+                self.pre = self.preamble()
+            if self.pre:
+                op = self.pre.pop(0)
+                op["i"] = self.i
+                self.i += 1
+                return op
         kind = rng.choices(["base", "unit", "cat", "clear", "user"], weights=[w["base"], w["unit"], w["cat"], w["clear"], w["user"]])[0]
         op = getattr(self, "g_" + kind)(sim, model)
         op["i"] = self.i
@@ -141,6 +166,27 @@ class RegGen:
         c = rng.choice(self.cats)
         reg = {"kind": "AddCategory", "category": c}
         kw = {}
+        registered = [x for x in self.cats if x in model.cats and model.cats[x].get("type") in self.types]
+        if registered and rng.random() < 0.2:
+            # a category that is in use is registered again (override) with the same quantity type
+            # but other limits / default unit: everything built afterwards must carry the new one
+            c = rng.choice(registered)
+            t = model.cats[c]["type"]
+            units_t = [u for u in self.units_of(t) if u in model.units] if t in self.T else []
+            reg = {"kind": "AddCategory", "category": c}
+            kw = {"override": True}
+            lo, hi = rng.choice([(None, None), (0.0, None), (None, 100.0), (0.0, 100.0), (-10.0, 10.0), (1.0, 5.0)])
+            if lo is not None:
+                kw["min_value"] = lo
+            if hi is not None:
+                kw["max_value"] = hi
+            if units_t and rng.random() < 0.6:
+                kw["default_unit"] = rng.choice(units_t)
+            if rng.random() < 0.3:
+                kw["caption"] = "x"
+            a = [c, t]
+            reg["kw"] = dict(kw, quantity_type=t)
+            return self._op("reg.AddCategory", "AddCategory", a, kw=kw, reg=reg)
         use_from = rng.random() < 0.25
         t = None
         if use_from:
@@ -151,6 +197,8 @@ class RegGen:
             t = model.cats.get(src, {}).get("type")
         else:
             t = rng.choice(self.types) if rng.random() < 1 - 0.07 * self.bad_rate else NOPE_T
+            if c in self.types and rng.random() < 0.5:
+                t = c  # the category named after the quantity type: the units' fall-back default category
             if rng.random() < 0.04 * self.bad_rate:
                 t = None  # neither quantity_type nor from_category
         units_t = self.units_of(t) if t in self.T else ["m", "s"]
@@ -497,6 +545,16 @@ class RegMonitor(Mon.Monitor):
 
     # ------------------------------------------------------------------------------- oracle 4
     def usable(self, sim, db, model, step, reg=None, everything=False, shipped=None):
+        """Order matters for what the intern table holds afterwards (the unit-only alias entry is
+        only created when the unit-only request comes first), so it alternates with the step."""
+        if step % 2:
+            self._usable_units(sim, db, model, step, reg, everything, shipped)
+            self._usable_categories(sim, db, model, step, reg, everything, shipped)
+        else:
+            self._usable_categories(sim, db, model, step, reg, everything, shipped)
+            self._usable_units(sim, db, model, step, reg, everything, shipped)
+
+    def _usable_categories(self, sim, db, model, step, reg=None, everything=False, shipped=None):
         from barril.units import Scalar
 
         if everything:
@@ -514,6 +572,8 @@ class RegMonitor(Mon.Monitor):
                 s = Scalar(c)
                 ok = bool(s.IsValid()) and s.GetCategory() == c
                 why = "invalid" if not ok else ""
+                if ok and not _bound_to_registered(db, s):
+                    ok, why = False, "stale_category_info"
             except Exception as e:
                 ok, why = False, type(e).__name__
             sim.check(ok, "C14.usable", dict(sigx, case="scalar_from_category", why=why), step, "Scalar(%r): %s" % (c, why))
@@ -530,9 +590,15 @@ class RegMonitor(Mon.Monitor):
                     s = Scalar(1.0, u, c)
                     ok = s.GetUnit() == u and s.GetCategory() == c
                     why = "" if ok else "wrong_unit_or_category"
+                    if ok and not _bound_to_registered(db, s):
+                        ok, why = False, "stale_category_info"
                 except Exception as e:
                     ok, why = False, type(e).__name__
                 sim.check(ok, "C14.usable", dict(sigx, case="scalar_unit_category", why=why), step, "Scalar(1.0, %r, %r): %s" % (u, c, why))
+    def _usable_units(self, sim, db, model, step, reg=None, everything=False, shipped=None):
+        from barril.units import Scalar
+
+        sigx = {"world": shipped} if shipped else {}
         units = []
         if everything:
             units = list(db.GetUnits())
@@ -555,6 +621,8 @@ class RegMonitor(Mon.Monitor):
                 s = Scalar(1.0, u)
                 ok = s.GetUnit() == u
                 why = "" if ok else "wrong_unit"
+                if ok and not _bound_to_registered(db, s):
+                    ok, why = False, "stale_category_info"
             except Exception as e:
                 ok, why = False, type(e).__name__
             sim.check(ok, "C14.usable", dict(sigx, case="scalar_unit", why=why), step, "Scalar(1.0, %r): %s" % (u, why))
@@ -585,6 +653,17 @@ def _safe(f):
         return type(e).__name__
 
 
+def _bound_to_registered(db, s):
+    """The Scalar just built carries the category as it is registered now (limits, type, units),
+    not an older registration of the same name that an intern table still remembers."""
+    from .. import fp as F
+
+    q = s.GetQuantity()
+    info = q.GetCategoryInfo()
+    reg = db.GetCategoryInfo(q.GetCategory())
+    return F.fp(info) == F.fp(reg) and q.GetQuantityType() == reg.quantity_type
+
+
 def _close(a, b):
     try:
         return abs(a - b) <= 1e-9 * max(1.0, abs(a), abs(b))
@@ -613,6 +692,9 @@ class C14:
             if rng.random() < 0.6:
                 cats.append(c)
         cats = cats or ["len", "tim"]
+        for t in types:
+            if t in CATS and t not in cats and rng.random() < 0.7:
+                cats.append(t)
         lo, hi = (8, 40) if tier == "quick" else (15, 60)
         if world in ("W-POSC", "W-POSC-NC"):
             hi = min(hi, 25)
@@ -623,6 +705,7 @@ class C14:
             "types": types,
             "cats": cats,
             "n_steps": rng.randint(lo, hi),
+            "preamble": rng.random() < 0.4,
             "weights": {
                 "base": rng.choice([0.5, 1, 2]),
                 "unit": rng.choice([1, 2, 3]),
